@@ -374,10 +374,12 @@ func runSszDiff(outDir string, seed int64, tier string) {
 			ob, died := expandInChild(ts)
 			if died != "" {
 				st.Monitors = append(st.Monitors, fmt.Sprintf("C18 never_panics: TasksToMessages on the range [%d,%d) ends the process: %s", a, b, died))
+				st.Monitors = append(st.Monitors, fmt.Sprintf("C17 out_of_range_refused: the range [%d,%d) leaves the built-in list and is not refused with an error: the expansion ends the process (%s)", a, b, died))
 				ob = "panic"
 			}
 			if strings.HasPrefix(ob, "panic") {
 				st.Monitors = append(st.Monitors, fmt.Sprintf("C18 never_panics: TasksToMessages panicked on the range [%d,%d)", a, b))
+				st.Monitors = append(st.Monitors, fmt.Sprintf("C17 out_of_range_refused: the range [%d,%d) leaves the built-in list and is not refused with an error: the expansion panics", a, b))
 			}
 			emit(strings.Join(toks, " "), ob)
 			st.Tasks++
